@@ -61,8 +61,8 @@ TrCheck ==
 TrExpl ==   \* explanation of the last inconsistency
   /\ Ev.e = "expl" /\ l' = l + 1 /\ UNCHANGED <<stack, bad, hist, tt, theory, memo, okLen, stale>>
   /\ LET E == { [t |-> Ev.lits[i].t, n |-> Ev.lits[i].n, s |-> Ev.lits[i].s] : i \in DOMAIN Ev.lits } IN
-     Note( If(~(Key(E) \subseteq Key(Lits(stack))), V("C22", "explanation mentions a literal that is not asserted")) \cup
-           If(Ev.mon /\ KVerdict(E, Ev.h) = "sat", V("C11", "explanation is theory-satisfiable")) )
+     Note( If(~(Key(E) \subseteq Key(Lits(stack))), V("C22", [m |-> "explanation mentions a literal that is not asserted"])) \cup
+           If(Ev.mon /\ KVerdict(E, Ev.h) = "sat", V("C11", [m |-> "explanation is theory-satisfiable"])) )
 TrDeduce ==  \* a deduced literal d: stack and not d must not be satisfiable
   /\ Ev.e = "deduce" /\ l' = l + 1 /\ UNCHANGED <<stack, bad, hist, tt, theory, memo, okLen, stale>>
   /\ LET nd == [t |-> Ev.t, n |-> Ev.n, s |-> ~Ev.s] IN
